@@ -15,8 +15,9 @@ KINDS = {
     "C05": {"over_capacity", "double_owner", "inuse_over_capacity", "inuse_negative", "inuse_not_zero_at_idle",
             "waiters_not_zero_at_idle", "leaked", "inuse_stuck_after_quiet_period"},
     "C08": {"batch_too_big", "batch_commit_order", "commit_before_send_return", "batch_commit_twice",
-            "resend_after_done", "added_not_committed_once", "batch_bytes_exceeded", "batch_stale", "parent_sent",
+            "resend_after_done", "added_not_committed_once", "batch_bytes_exceeded", "batch_stale", "parent_sent", "deliverable_event_not_sent",
             "not_idle", "unaccounted"},       # an added event that is never committed
+    "C19": {"deliverable_event_not_sent", "parent_sent", "payload_of_other_event"},
     "C09": {"gave_up_without_events", "payload_of_other_event", "pause_too_short", "gave_up_early", "gave_up_unlimited", "onerror_twice", "failed_twice", "fail_without_dq",
             "commit_of_dead_queued", "exhausted_not_dq_only", "exhausted_not_main_once",
             "commit_before_send_return", "not_idle", "unaccounted"},     # an event of an exhausted batch that nobody ever commits
